@@ -143,7 +143,7 @@ theorem total_step (s s' : State) (e : Ev) (h : next s e = some s') (id : Nat) :
   | taskSet k => simp only [next] at h; cases h; simp [total, newId]
   | taskClear self =>
     cases self <;> simp only [next] at h
-    · cases h; simp [total, newId]
+    · split at h <;> cases h <;> simp [total, newId]
     · split at h <;> (try (cases h))
       simp [total, newId, count_append]; omega
 
@@ -231,7 +231,7 @@ theorem resend_step (s s' : State) (e : Ev) (h : next s e = some s') (hr : Resen
   | taskSet k => simp only [next] at h; cases h; simpa using hr'
   | taskClear self =>
     cases self <;> simp only [next] at h
-    · cases h; simpa using hr'
+    · split at h <;> cases h <;> simpa using hr'
     · split at h <;> cases h; simpa using hr'
 
 /-! ### nothing is buffered while the runner reports a steady state -/
@@ -241,7 +241,8 @@ def Idle (s : State) : Prop :=
 
 theorem idle_init : Idle init := by intro _; simp [init]
 
-theorem idle_step (s s' : State) (e : Ev) (h : next s e = some s') (hi : Idle s) : Idle s' := by
+theorem idle_step (s s' : State) (e : Ev) (h : next s e = some s') (hi : Idle s) (hz : s'.orphans = 0) :
+    Idle s' := by
   unfold Idle at *
   cases e with
   | produce i k => simp only [next] at h; split at h <;> cases h; simpa using hi
@@ -253,7 +254,8 @@ theorem idle_step (s s' : State) (e : Ev) (h : next s e = some s') (hi : Idle s)
   | bufTask i q =>
     simp only [next] at h; split at h <;> cases h
     rename_i hg; intro hs; simp at hs
-    simp [mustBuffer] at hg; rcases hs with hs | hs | hs <;> simp [hs] at hg
+    simp at hz
+    simp [mustBuffer, hz] at hg; rcases hs with hs | hs | hs <;> simp [hs] at hg
   | reject i => simp only [next] at h; split at h <;> cases h; simpa using hi
   | ok i =>
     simp only [next] at h
@@ -294,7 +296,7 @@ theorem idle_step (s s' : State) (e : Ev) (h : next s e = some s') (hi : Idle s)
   | taskSet k => simp only [next] at h; cases h; simpa using hi
   | taskClear self =>
     cases self <;> simp only [next] at h
-    · cases h; simpa using hi
+    · split at h <;> cases h <;> simpa using hi
     · split at h <;> cases h; simpa using hi
 
 /-! ### sequence numbers -/
@@ -339,7 +341,7 @@ theorem seqs_step (s s' : State) (e : Ev) (h : next s e = some s') :
   | taskSet k => simp only [next] at h; cases h; simp
   | taskClear self =>
     cases self <;> simp only [next] at h
-    · cases h; simp
+    · split at h <;> cases h <;> simp
     · split at h <;> cases h; simp
 
 theorem seqWF_after (s : State) (hw : SeqWF s) (id : Nat) :
@@ -572,12 +574,13 @@ def queue (s : State) : List Nat := s.inflight ++ s.batch ++ s.buffer
 
 /-- Steps excluded by the partial theorem: the state task swallowing its own cancellation, a stop notification
     sent directly while catching up, a failure hitting a message that had been buffered (a fault during
-    catch-up), a batch that is re-buffered. -/
+    catch-up), a batch that is re-buffered, a failure handler overwriting the reference to a live buffer task. -/
 def calmStep (s : State) : Ev → Bool
   | .taskClear true => false
   | .send id _ => !(decide (s.st = .catchingUp) && isStop s id)
   | .fail id => !s.everBuf.contains id
   | .postBatch false _ => false
+  | .taskClear false => !(decide (s.stask = some .buffering) && decide (s.st ≠ .reconnected) && decide (s.st ≠ .connected))
   | _ => true
 
 def calmFrom (s : State) : List Ev → Bool
@@ -790,7 +793,7 @@ theorem everOK_step (s s' : State) (e : Ev) (h : next s e = some s') (hc : Conse
   | taskSet k => simp only [next] at h; cases h; exact he
   | taskClear self =>
     cases self <;> simp only [next] at h
-    · cases h; exact he
+    · split at h <;> cases h <;> exact he
     · split at h <;> cases h; exact he
 
 /-- `stuck` only grows. -/
@@ -827,7 +830,7 @@ theorem stuck_mono (s s' : State) (e : Ev) (h : next s e = some s') (m : Nat) (h
   | taskSet k => simp only [next] at h; cases h; exact hm
   | taskClear self =>
     cases self <;> simp only [next] at h
-    · cases h; exact hm
+    · split at h <;> cases h <;> exact hm
     · split at h <;> cases h; exact List.mem_append_left _ hm
 
 /-- A stuck message is nowhere else: not delivered, not queued. -/
@@ -837,5 +840,81 @@ theorem stuck_elsewhere (s : State) (hc : Conserved s) (m : Nat) (hm : m ∈ s.s
   have := (conserved_le_one s hc m).1
   unfold total at this
   refine ⟨?_, ?_, ?_, ?_⟩ <;> apply count_zero_not_mem <;> omega
+
+/-! ### orphaned buffer tasks -/
+
+theorem orphans_mono (s s' : State) (e : Ev) (h : next s e = some s') : s.orphans ≤ s'.orphans := by
+  cases e with
+  | produce i k => simp only [next] at h; split at h <;> cases h; simp
+  | send i q => simp only [next] at h; split at h <;> cases h; simp
+  | buf i q => simp only [next] at h; (repeat' split at h) <;> (try (cases h)) <;> simp
+  | bufTask i q => simp only [next] at h; split at h <;> cases h; simp
+  | reject i => simp only [next] at h; split at h <;> cases h; simp
+  | ok i =>
+    simp only [next] at h
+    split at h
+    · split at h <;> cases h; simp
+    · cases h
+  | fail i =>
+    simp only [next] at h
+    split at h
+    · split at h <;> cases h; simp
+    · cases h
+  | cancel i => simp only [next] at h; (repeat' split at h) <;> (try (cases h)) <;> simp
+  | setState t =>
+    cases t <;> simp only [next] at h <;> (try (cases h)) <;>
+      (repeat' split at h) <;> (try (cases h)) <;> simp
+  | take n => simp only [next] at h; split at h <;> cases h; simp
+  | postBatch sent qs =>
+    cases sent <;> simp only [next] at h <;> split at h <;> (try (cases h)) <;> simp
+  | connect b => simp only [next] at h; split at h <;> cases h; simp
+  | disconnect => simp only [next] at h; cases h; simp
+  | wait i self =>
+    cases self <;> simp only [next] at h <;> split at h <;> (try (cases h)) <;> simp
+  | waitOther => simp only [next] at h; split at h <;> cases h; simp
+  | taskSet k => simp only [next] at h; cases h; simp
+  | taskClear self =>
+    cases self <;> simp only [next] at h
+    · split at h <;> cases h <;> simp
+    · split at h <;> cases h; simp
+
+theorem orphans_calm (s s' : State) (e : Ev) (h : next s e = some s') (hc : calmStep s e = true)
+    (hz : s.orphans = 0) : s'.orphans = 0 := by
+  cases e with
+  | taskClear self =>
+    cases self <;> simp only [next] at h
+    · split at h
+      · rename_i hg
+        simp [calmStep, hg.1, hg.2.1, hg.2.2] at hc
+      · cases h; exact hz
+    · simp [calmStep] at hc
+  | produce i k => simp only [next] at h; split at h <;> cases h; exact hz
+  | send i q => simp only [next] at h; split at h <;> cases h; exact hz
+  | buf i q => simp only [next] at h; (repeat' split at h) <;> (try (cases h)) <;> exact hz
+  | bufTask i q => simp only [next] at h; split at h <;> cases h; exact hz
+  | reject i => simp only [next] at h; split at h <;> cases h; exact hz
+  | ok i =>
+    simp only [next] at h
+    split at h
+    · split at h <;> cases h; exact hz
+    · cases h
+  | fail i =>
+    simp only [next] at h
+    split at h
+    · split at h <;> cases h; exact hz
+    · cases h
+  | cancel i => simp only [next] at h; (repeat' split at h) <;> (try (cases h)) <;> exact hz
+  | setState t =>
+    cases t <;> simp only [next] at h <;> (try (cases h)) <;>
+      (repeat' split at h) <;> (try (cases h)) <;> exact hz
+  | take n => simp only [next] at h; split at h <;> cases h; exact hz
+  | postBatch sent qs =>
+    cases sent <;> simp only [next] at h <;> split at h <;> (try (cases h)) <;> exact hz
+  | connect b => simp only [next] at h; split at h <;> cases h; exact hz
+  | disconnect => simp only [next] at h; cases h; exact hz
+  | wait i self =>
+    cases self <;> simp only [next] at h <;> split at h <;> (try (cases h)) <;> exact hz
+  | waitOther => simp only [next] at h; split at h <;> cases h; exact hz
+  | taskSet k => simp only [next] at h; cases h; exact hz
 
 end OPM.Runner
